@@ -865,6 +865,26 @@ fn should_do_dollar_command_extension(line: &str) -> bool {
 /// newlines is returned, its stderr is passed on to the shell's stderr.
 /// A command that cannot be parsed gives a diagnostic and an empty result.
 fn run_command_for_substitution(sh: &mut Shell, cmd: &str) -> String {
+    // substitutions nest through the shell's own stack (an alias whose value
+    // substitutes the alias itself would recurse until it overflows)
+    let depth = SUBSTITUTION_DEPTH.with(|d| d.get());
+    if depth >= MAX_SUBSTITUTION_DEPTH {
+        println_stderr!("cicada: command substitution nested too deeply");
+        return String::new();
+    }
+    SUBSTITUTION_DEPTH.with(|d| d.set(depth + 1));
+    let result = run_command_for_substitution_inner(sh, cmd);
+    SUBSTITUTION_DEPTH.with(|d| d.set(depth));
+    result
+}
+
+const MAX_SUBSTITUTION_DEPTH: usize = 32;
+
+thread_local! {
+    static SUBSTITUTION_DEPTH: std::cell::Cell<usize> = std::cell::Cell::new(0);
+}
+
+fn run_command_for_substitution_inner(sh: &mut Shell, cmd: &str) -> String {
     let cr = match CommandLine::from_line(cmd, sh) {
         Ok(c) => {
             log!("run subcmd: {:?}", cmd);
